@@ -3,6 +3,11 @@ A small pool layer over the connection model (C10): the per-node pool refiller a
 publishes ← `connection_pool.rs` `PoolRefiller` (`conns`, `shared_conns`, `update_shared_conns`, `remove_connection`
 1218-1275, `start_opening_connection` / `handle_ready_connection`, `connection_errors`).
 
+This is the id-level abstraction (for the liveness bookkeeping: dead / reported / processed) of the full refiller
+model `Model/Routing.lean` `Refiller` (shard buckets, `maybe_reshard`, excess connections, non-publishing arms),
+which C10 shares with C12; that the published pool always equals the refiller's buckets there — which is what
+`shared := conns'` below takes for granted — is `Props.C10.refiller_publishes_what_it_holds`.
+
 A connection's death is the break event of `Model/Conn.lean` (its router ended; `error_receiver` fires). The
 refiller learns of it through `connection_errors` (`die` = the router ended and the notice is on its way; `process`
 = the refiller runs `remove_connection`). Routing (`connection_for_shard`, `random_connection`,
